@@ -257,21 +257,23 @@ func (kr *keyring) multiSigner(pubs keys.PublicKeys, m int) (neotest.Signer, err
 
 // producer turns operations into signed transactions and blocks on node P.
 type producer struct {
-	dk      *dualKey
-	n       *Node
-	kr      *keyring
-	nonce   uint32
-	ks      [numContracts]*kContract // current code of each helper contract slot
-	kver    [numContracts]byte
-	khash   [numContracts]util.Uint160
-	kowner  [numContracts]int
-	kalive  [numContracts]bool
-	everK   map[util.Uint160]bool
-	txLog   []util.Uint256 // every transaction hash put on chain
-	dropped map[string]int
-	vcache  map[[2]byte]*kContract
-	ora     oraState       // pending oracle requests (oracle.go)
-	probes  map[string]int // the run's probe counters (may be nil)
+	dk *dualKey
+	// vmStateReads: (height of the block the script was built for, index of the block whose transaction it asks about)
+	vmStateReads [][2]uint32
+	n            *Node
+	kr           *keyring
+	nonce        uint32
+	ks           [numContracts]*kContract // current code of each helper contract slot
+	kver         [numContracts]byte
+	khash        [numContracts]util.Uint160
+	kowner       [numContracts]int
+	kalive       [numContracts]bool
+	everK        map[util.Uint160]bool
+	txLog        []util.Uint256 // every transaction hash put on chain
+	dropped      map[string]int
+	vcache       map[[2]byte]*kContract
+	ora          oraState       // pending oracle requests (oracle.go)
+	probes       map[string]int // the run's probe counters (may be nil)
 }
 
 func newProducer(n *Node) *producer {
